@@ -106,8 +106,65 @@ func srcNode(kind string, kids []*gen.SNode, body []*gen.DNode) (node.Node, erro
 		return nodeutil.ReflectChild(gen.ToMap(kids, body)), nil
 	case "node-map":
 		return &nodeutil.Node{Object: gen.ToMap(kids, body)}, nil
+	case "xml", "xml-interleaved":
+		// the XML reader; RFC 7950 §7.8.5 lets the entries of a list stand between their sibling elements
+		doc := "<src xmlns=\"urn:m\">" + c03xml(kids, body, kind == "xml-interleaved") + "</src>"
+		return nodeutil.ReadXMLDoc(strings.NewReader(doc))
 	}
 	return nil, fmt.Errorf("unknown source %s", kind)
+}
+
+var c03xmlRng = core.NewRng(7)
+
+func c03xml(kids []*gen.SNode, body []*gen.DNode, interleave bool) string {
+	esc := func(t string) string {
+		return strings.NewReplacer("&", "&amp;", "<", "&lt;", ">", "&gt;").Replace(t)
+	}
+	var groups [][]string // per child: its elements in order
+	for i, s := range kids {
+		d := body[i]
+		var g []string
+		switch s.Kind {
+		case "leaf":
+			if d.Leaf != nil {
+				vals := []string{*d.Leaf}
+				if s.LeafList {
+					vals = strings.Split(*d.Leaf, gen.ListSep)
+				}
+				for _, v := range vals {
+					g = append(g, fmt.Sprintf("<%s>%s</%s>", s.Name, esc(v), s.Name))
+				}
+			}
+		case "cont":
+			if d.Present {
+				g = append(g, fmt.Sprintf("<%s>%s</%s>", s.Name, c03xml(s.Kids, d.Kids, interleave), s.Name))
+			}
+		case "list":
+			for _, row := range d.Rows {
+				g = append(g, fmt.Sprintf("<%s>%s</%s>", s.Name, c03xml(s.Kids, row.Kids, interleave), s.Name))
+			}
+		}
+		if len(g) > 0 {
+			groups = append(groups, g)
+		}
+	}
+	var b strings.Builder
+	if !interleave {
+		for _, g := range groups {
+			b.WriteString(strings.Join(g, ""))
+		}
+		return b.String()
+	}
+	// a random merge that keeps the order inside every group (same-named elements keep their order)
+	for len(groups) > 0 {
+		k := c03xmlRng.Intn(len(groups))
+		b.WriteString(groups[k][0])
+		groups[k] = groups[k][1:]
+		if len(groups[k]) == 0 {
+			groups = append(groups[:k], groups[k+1:]...)
+		}
+	}
+	return b.String()
 }
 
 // the Go types a struct-backed target is given: nodeutil.Reflect converts numbers (int64 fields and []int64 for
@@ -124,6 +181,10 @@ func c03structOpts(tgtKind string, r *core.Rng) gen.StructOpts {
 		o.ListPtr = true
 	case "node-struct-ptr":
 		o.ListPtr = true // nodeutil.Node creates list entries only through pointers; it wants int for int32 and []int32 for its leaf-list
+		if r.Chance(35) {
+			// fields found by their `yang:"…"` tag (generated names such as f1 / f12 are prefixes of one another)
+			o.Tags, o.Embed = true, false
+		}
 	}
 	return o
 }
@@ -146,7 +207,7 @@ func applyEdit(sel *node.Selection, strategy string, src node.Node) (err error) 
 }
 
 func C03(c *core.Ctx) {
-	c.Rule = "generated schemas (leaves with/without defaults, containers, lists with 1–2 keys, depth ≤3) × pairs (source, target) of conforming trees with controlled key overlap × strategy × entry point (root, container, list entry) × source implementation (reference store, JSON reader, reflection over maps, nodeutil.Node) × target implementation (reference store, reflection over maps, nodeutil.Node); result tree and error class compared with the Lean editor model and the merge specification. non-trivial = both trees non-empty; distinct by (schema, source, target, strategy, entry, implementations)"
+	c.Rule = "generated schemas (leaves with/without defaults, containers, lists with 1–2 keys, depth ≤3) × pairs (source, target) of conforming trees with controlled key overlap × strategy × entry point (root, container, list entry) × source implementation (reference store, JSON reader, XML reader with list entries contiguous and interleaved with their siblings, reflection over maps, nodeutil.Node) × target implementation (reference store, reflection over maps, nodeutil.Node); result tree and error class compared with the Lean editor model and the merge specification. non-trivial = both trees non-empty; distinct by (schema, source, target, strategy, entry, implementations)"
 	c.Assumptions = append(c.Assumptions,
 		"the reference store (harness/refstore) implements the store contract of the model: child/list exists iff it holds data, Next{New} appends, lookups by key text",
 		"targets that keep a list in a Go map are compared with entry order ignored (the contract 'otherwise appended' is about ordered stores)")
@@ -182,7 +243,7 @@ func C03(c *core.Ctx) {
 				tgt = gen.EmptyBody(dc.kids)
 			}
 			strategy := core.Pick(r, []string{"upsert", "upsert", "insert", "update"})
-			srcKind := core.Pick(r, []string{"refstore", "refstore", "json", "reflect-map", "node-map"})
+			srcKind := core.Pick(r, []string{"refstore", "refstore", "json", "reflect-map", "node-map", "xml", "xml-interleaved"})
 			tgtKind := core.Pick(r, []string{"refstore", "refstore", "refstore", "reflect-map", "node-map", "reflect-struct", "reflect-struct-ptr", "node-struct-ptr"})
 			// entry point
 			locs := []editLoc{{"", dc.kids, tgt, "root", 0}}
